@@ -164,6 +164,9 @@ pub fn check_format(b: &Board, r: &RefPos, stats: &mut Stats) -> CheckResult {
             Err(e) => fail!("styled(SanUtf8) refused a legal move: {}", e),
         }
         ensure!(got.styled(san::Style::Algebraic).to_string() == want, "san::Move::styled(Algebraic) differs");
+        let body = want.trim_end_matches(['+', '#']);
+        ensure!(got.data.to_string() == body && got.data.styled(san::Style::Algebraic).to_string() == body, "san::Data text {:?} is not the SAN {:?} without its check mark", got.data.to_string(), want);
+        ensure!(san::Data::from_move(mv, b) == got.data, "san::Data::from_move differs from san::Move::from_move");
         if let Some(other) = texts.insert(text.clone(), *m) {
             fail!("two distinct legal moves {} and {} share the SAN text {:?}", other.uci(), m.uci(), text);
         }
